@@ -44,8 +44,10 @@ class Check(core.CheckBase):
         found = []
         wanted = case.get('index')
         for index in range(self.PER_BLOCK):
-            kind = index % 4
-            if kind == 3:
+            kind = index % 5
+            if kind == 4:
+                pairs = [self.gen.certificate_plain_options(rng)]
+            elif kind == 3:
                 # the same subject key certified twice: each certificate has its own blob, hence its own fingerprints
                 pairs = self.gen.certificate_renewed(rng)
             else:
